@@ -569,6 +569,8 @@ REWRITES = [("empty-pad", empty_pad_rewrite), ("alias", alias_rewrite), ("zchar"
 
 
 def run_c08(ctx):
+    import checks_driver
+    checks_driver.regenerate_facts(ctx)     # T1: option / alias / default tables rewritten from the current source
     check_obligations(ctx, "C08")
     import copy
     import checks_front
